@@ -14,7 +14,12 @@ loop runs, connects succeed, disconnects finish, holders release after a
 finite delay, timers fire, nobody new arrives.  Verdicts:
   all acquire() calls returned                         -> pass
   a pending acquire while the projected pool state no longer changes over
-  many timer periods (driver and pool are deterministic) -> VIOLATION
+  60 rebalancing ticks and - as long as a garbage-collection timer is
+  pending, because GC can free capacity for a blocked request - over three
+  GC runs, all timers fired in due-time order (driver and pool are
+  deterministic)                                        -> VIOLATION
+  budget exhausted while the state still changes        -> inconclusive
+                                                            (counted, exit 0)
   connect failures exhausted the retries but a waiter of that block is
   still blocked after the loop drained                 -> VIOLATION
 Also: recorded traces of these runs are validated against ConnPool.tla with
@@ -47,7 +52,14 @@ def stuck_signature(w, pend):
         if d in wdbs:
             continue
         for c in b.conn_stack:
-            origins.add('released' if c.id in w.ever_lent else 'fresh')
+            if c.id not in w.ever_lent:
+                origins.add('fresh')
+            elif c.id in w.released_past_starved:
+                # release() in Mode D parked it although another block had
+                # requests and no connection at that very moment
+                origins.add('released-past-a-starved-block')
+            else:
+                origins.add('released')
     idle = '+'.join(sorted(origins)) or 'none'
     return (f"stuck:capacity={'full' if pool.current_capacity >= w.max else 'free'}"
             f":mode={'D' if getattr(pool, '_is_starving', False) else 'ABC'}"
@@ -57,10 +69,39 @@ def stuck_signature(w, pend):
             f":dbs={'1' if len(w.dbs) == 1 else 'n'}")
 
 
-def fair_completion(w, rnd, max_rounds=600, patience=60):
-    """returns None if every request got served, else a description"""
-    same = 0
+INCONCLUSIVE = 'inconclusive'
+
+
+def _round_budget(w, patience):
+    """enough rounds (one to fire a timer, one to run it) for one more than
+    GC_FIRINGS garbage-collection periods of ticks"""
+    per_gc = int(w.pool._gc_interval / D.pool_module().config.MIN_CONN_TIME_THRESHOLD) + 2
+    return 600 + 2 * (GC_FIRINGS + 1) * (per_gc + patience)
+
+
+# A stall is only declared once the projected state survived this many
+# firings of a pending garbage-collection timer (the first may find idle
+# connections too young, the second re-arms itself when requests piled up,
+# the third sees every time-dependent condition in its final state).
+GC_FIRINGS = 3
+
+
+def fair_completion(w, rnd, max_rounds=None, patience=60):
+    """returns None if every request got served, INCONCLUSIVE if the budget
+    ran out while the pool was still changing, else (signature, description).
+
+    The pool's own timers are fired strictly in due-time order.  The state is
+    compared at the instants the loop is idle and the next timer is about to
+    fire; a stall is declared only when it stayed the same over `patience`
+    rebalancing ticks AND, as long as a garbage-collection timer is pending
+    (GC can discard an idle connection, which frees capacity for a blocked
+    request), also over GC_FIRINGS firings of it (a firing counts once
+    everything it set off has run and the state is still the same)."""
+    if max_rounds is None:
+        max_rounds = _round_budget(w, patience)
     last = None
+    ticks_same = gcs_same = 0
+    fired = None
     hold_age = {}
     for rnd_no in range(max_rounds):
         pend = [c for c in w.clients if w.pc[c] == 'pending']
@@ -87,21 +128,33 @@ def fair_completion(w, rnd, max_rounds=600, patience=60):
                 released = True
                 break
         if released:
-            same = 0
+            last = None
             continue
-        if w._next_timer() is not None:
-            w.do(('FireTimer',))
-            pj = json.dumps(w.proj(), sort_keys=True)
+        nxt = w._next_timer()
+        if nxt is not None:
+            # the loop is idle: everything the previous timer set off has run
+            pj = w.proj()
             if pj == last and not holders:
-                same += 1
-                if same >= patience:
+                if fired == '_run_gc':
+                    gcs_same += 1
+                elif fired == '_tick':
+                    ticks_same += 1
+                gc_pending = any(D._cb_name(h) == '_run_gc'
+                                 for h in w.loop.timers())
+                if ticks_same >= patience and (
+                        not gc_pending or gcs_same >= GC_FIRINGS):
+                    pj = json.dumps(pj, sort_keys=True)
                     return (stuck_signature(w, pend),
                             f'requests of {pend} never return: pool state is '
-                            f'stationary over {patience} timer periods with '
-                            f'no holder left; state={pj}')
+                            f'stationary over {ticks_same} rebalancing ticks '
+                            f'and {gcs_same} GC runs with no holder left and '
+                            f'{"a" if gc_pending else "no"} GC timer pending; '
+                            f'state={pj}')
             else:
-                same = 0
+                ticks_same = gcs_same = 0
                 last = pj
+            fired = D._cb_name(nxt)
+            w.do(('FireTimer',))
             continue
         if pend:
             return (stuck_signature(w, pend) + ':loop-idle',
@@ -110,7 +163,7 @@ def fair_completion(w, rnd, max_rounds=600, patience=60):
                     f'{json.dumps(w.proj(), sort_keys=True)}')
     pend = [c for c in w.clients if w.pc[c] == 'pending']
     if pend:
-        return None   # inconclusive (still making changes) - not a verdict
+        return INCONCLUSIVE   # still changing when the budget ran out - no verdict
     return None
 
 
@@ -155,9 +208,27 @@ def live_run(cname, seed, steps):
         npend_before = [c for c in w.clients if w.pc[c] == 'pending']
         verdict = fair_completion(w, rnd)
         served = len(npend_before)
+        if verdict == INCONCLUSIVE:
+            return sched, None, -served if served else None
         return sched, verdict, served
     finally:
         w.close()
+
+
+# Schedules (configuration, seed, prefix length) that exposed genuine defects
+# of the pool; they are replayed in every tier so that the repaired ones stay
+# repaired whatever VERIF_SEED selects.
+REGRESSION = [
+    # fixed 73b90d6: request left in a block without connection, below capacity
+    ('k2', 2000226, 60), ('k2', 3001750, 60), ('k2', 6002644, 60),
+    ('k2', 11000877, 60), ('k2', 99001262, 60), ('k2', 122998761, 60),
+    # same history, but an armed GC timer rescues the request after two GC
+    # periods (must NOT be reported: the old 60-tick horizon did)
+    ('k2', 999991, 60),
+    # known Mode D stalls (fresh / released / both kinds of idle connection)
+    ('k1', 1000005, 30), ('k1', 5000030, 30), ('k2', 4002384, 60),
+    ('k3', 12001293, 90),
+]
 
 
 def _job(args):
@@ -165,16 +236,19 @@ def _job(args):
     out = []
     served = 0
     nontrivial = 0
+    inconclusive = 0
     for i in range(count):
         sched, verdict, n = live_run(cname, seed0 + i, steps)
-        if n:
+        if n and n < 0:
+            inconclusive += 1     # budget ran out while still changing
+        elif n:
             served += n
             nontrivial += 1
         if verdict:
             out.append(dict(cfg=cname, seed=seed0 + i, steps=steps,
                             schedule=[list(a) for a in sched],
                             sig=verdict[0], what=verdict[1]))
-    return cname, count, nontrivial, served, out
+    return cname, count, nontrivial, served, inconclusive, out
 
 
 def replay(path, rep):
@@ -200,7 +274,7 @@ def run(tier, seed, rep):
             'k4': (1500, 40)} if quick else \
            {'k1': (120000, 40), 'k2': (80000, 80), 'k3': (40000, 120),
             'k4': (40000, 50)}
-    runs = nontriv = served = 0
+    runs = nontriv = served = inconcl = 0
     sigs = {}
     samples = []
     with CC.pool() as mp:
@@ -209,8 +283,9 @@ def run(tier, seed, rep):
             per = max(1, n // (lib.NCPU * 2))
             for j in range(0, n, per):
                 jobs.append((cname, seed * 999_983 + j, min(per, n - j), steps))
-        for cname, cnt, nt, sv, out in mp.imap_unordered(_job, jobs):
+        for cname, cnt, nt, sv, inc, out in mp.imap_unordered(_job, jobs):
             runs += cnt
+            inconcl += inc
             nontriv += nt
             served += sv
             for o in out:
@@ -219,6 +294,18 @@ def run(tier, seed, rep):
                     o['sig'],
                     f"pool config {o['cfg']} (seed {o['seed']}): {o['what'][:400]}",
                     o)
+    for cname, rseed, steps in REGRESSION:
+        sc, v, n = live_run(cname, rseed, steps)
+        runs += 1
+        if n and n > 0:
+            served += n
+            nontriv += 1
+        if v:
+            sigs[v[0]] = sigs.get(v[0], 0) + 1
+            rep.violation(
+                v[0], f"pool config {cname} (seed {rseed}): {v[1][:400]}",
+                dict(cfg=cname, seed=rseed, steps=steps,
+                     schedule=[list(a) for a in sc], sig=v[0], what=v[1]))
     sc, v, n = live_run('k2', seed, 40)
     samples.append(dict(cfg='k2', schedule_prefix=[list(a) for a in sc[:25]],
                         pending_at_end_of_prefix=n,
@@ -230,7 +317,12 @@ def run(tier, seed, rep):
         samples=samples, model_checking=mc,
         evaluations=runs, distinct_nontrivial=nontriv,
         pending_requests_followed_to_completion=served,
+        inconclusive_runs=inconcl,
         starvation_signatures=sigs,
+        regression_schedules=len(REGRESSION),
+        stall_horizon=f'{60} rebalancing ticks and, while a GC timer is '
+                      f'pending, {GC_FIRINGS} GC runs without a change of '
+                      f'the projected state',
         rule='one case = one seeded schedule prefix on the real Pool followed '
              'by fair completion; non-trivial = at least one acquire was still '
              'pending when the prefix ended')
@@ -238,6 +330,9 @@ def run(tier, seed, rep):
         'model liveness assumes FairPolicy for Mode C quotas; the code-level '
         'runs make no such assumption',
         'bounded liveness: starvation is reported only when the deterministic '
-        'pool+driver state has become stationary',
+        'pool+driver state has become stationary over 60 ticks and, while a '
+        'GC timer is pending, 3 GC runs (every time-dependent condition of '
+        'the pool - connection age for GC, Mode D grace period - is monotone '
+        'in elapsed time and has reached its final value by then)',
         'fair completion mode: no new requests arrive while pending ones are '
         'followed'])
